@@ -196,6 +196,10 @@ FAMILIES = {
     "tor-colons": ("hint", lambda n: "tor" + ":" * n),
     "tor-prefix-run": ("hint", lambda n: "x" * n + ":a:1x"),
     "i2p-run": ("hint", lambda n: "i2p:" + "a" * n + ":"),
+    "colons-then-run": ("hint", lambda n: ":" * (n // 2) + "a" * (n // 2)),
+    "tor-colons-then-run": ("hint", lambda n: "tor:" + ":" * (n // 2) + "a" * (n // 2) + ":1x"),
+    "tcp-hex-zone-mix": ("hint", lambda n: "tcp:[" + "a%" * (n // 2)),
+    "dots-digits": ("hint", lambda n: "1." * (n // 2) + ":1"),
     "hint-newlines": ("hint", lambda n: "tcp:a:1" + "\n" * n),
     "furl-pb-repeat": ("furl", lambda n: "pb://" * (n // 5)),
     "furl-no-at": ("furl", lambda n: "pb://" + "a" * n),
